@@ -361,6 +361,10 @@ def parse_youtube_url(url, fix_common_mistakes=True):
 
         user = splitted_path[1]
 
+        # NOTE: "/user//x" has no user name
+        if not user:
+            return None
+
         return YoutubeUser(id=None, name=user)
 
     # Channel path?
@@ -383,6 +387,10 @@ def parse_youtube_url(url, fix_common_mistakes=True):
             return None
 
         cid = splitted_path[1]
+
+        # NOTE: "/channel//x" has no channel id
+        if not cid:
+            return None
 
         return YoutubeChannel(id=cid, name=None)
 
